@@ -1335,8 +1335,9 @@ def _child_main():
 CFG_ELAB = """SPECIFICATION Spec
 CONSTANTS SortedDomains = {sorted}
  AsSet = {asset}
+ PickBudget = 1
  MaxImplicit = {maximp}
- SpreadChoices = {{TRUE, FALSE}}
+ SpreadChoices = {spread}
  ClashChoices = {clash}
  AnonChoices = {anon}
  Emit = {emit}
@@ -1402,21 +1403,22 @@ def stage_target(ctx):
     """TLC on ElabOrder.  Returns (family designs, canonical outputs, all outputs of the unsorted construction)."""
     from concurrent.futures import ThreadPoolExecutor
     OI, NI, WF = "OutputIndependentOfPickOrder", "NamesIndependentOfPickOrder", "WellFormed"
-    full = dict(maximp=3, clash=BOTH, anon=BOTH, emit="FALSE", asset="{}")
+    full = dict(maximp=3, spread=BOTH, clash=BOTH, anon=BOTH, emit="FALSE", asset="{}")
+    hyp = dict(full, sorted="TRUE", maximp=1, spread="{FALSE}")     # hypothetical sets: a smaller family is enough
     jobs = [
         # name, cfg parameters, invariants, expected violation, actions that must fire
         ("sorted", dict(full, sorted="TRUE", emit="TRUE"), (OI, NI, WF), None, ["PickOrdered", "Advance"]),
         ("unsorted-all-outputs", dict(full, sorted="FALSE", emit="TRUE"), (WF,), None, ["PickOrdered", "PickFromSet", "Advance"]),
         ("mutant-unsorted-domains", dict(full, sorted="FALSE"), (OI,), OI, None),
         ("unsorted-at-most-1-implicit", dict(full, sorted="FALSE", maximp=1), (OI, NI, WF), None, ["PickFromSet"]),
-        ("hyp-used-signals-order", dict(full, sorted="TRUE", asset='{"used_signals"}'), (OI,), OI, None),
-        ("hyp-used-signals-names-no-clash", dict(full, sorted="TRUE", asset='{"used_signals"}', clash="{FALSE}"), (NI, WF), None, ["PickFromSet"]),
-        ("hyp-used-signals-names-clash", dict(full, sorted="TRUE", asset='{"used_signals"}', clash="{TRUE}"), (NI,), NI, None),
-        ("hyp-subfragments-order", dict(full, sorted="TRUE", asset='{"subfragments"}'), (OI,), OI, None),
-        ("hyp-subfragments-names-named", dict(full, sorted="TRUE", asset='{"subfragments"}', clash="{FALSE}", anon="{FALSE}"), (NI, WF), None, ["PickFromSet"]),
-        ("hyp-subfragments-names-anon", dict(full, sorted="TRUE", asset='{"subfragments"}', clash="{FALSE}", anon="{TRUE}"), (NI,), NI, None),
-        ("hyp-stmt-domains-order", dict(full, sorted="TRUE", asset='{"stmt_domains"}'), (OI,), OI, None),
-        ("hyp-stmt-domains-names", dict(full, sorted="TRUE", asset='{"stmt_domains"}'), (NI, WF), None, ["PickFromSet"]),
+        ("hyp-used-signals-order", dict(hyp, asset='{"used_signals"}'), (OI,), OI, None),
+        ("hyp-used-signals-names-no-clash", dict(hyp, asset='{"used_signals"}', clash="{FALSE}"), (NI, WF), None, ["PickFromSet"]),
+        ("hyp-used-signals-names-clash", dict(hyp, asset='{"used_signals"}', clash="{TRUE}"), (NI,), NI, None),
+        ("hyp-subfragments-order", dict(hyp, asset='{"subfragments"}'), (OI,), OI, None),
+        ("hyp-subfragments-names-named", dict(hyp, asset='{"subfragments"}', clash="{FALSE}", anon="{FALSE}"), (NI, WF), None, ["PickFromSet"]),
+        ("hyp-subfragments-names-anon", dict(hyp, asset='{"subfragments"}', clash="{FALSE}", anon="{TRUE}"), (NI,), NI, None),
+        ("hyp-stmt-domains-order", dict(hyp, asset='{"stmt_domains"}'), (OI,), OI, None),
+        ("hyp-stmt-domains-names", dict(hyp, asset='{"stmt_domains"}'), (NI, WF), None, ["PickFromSet"]),
     ]
 
     def one(j):
@@ -1529,7 +1531,7 @@ def build_histories(results, seeds, names):
                     if kind == "skip":
                         continue
                     events.append({"design": name, "kind": kind, "proc": p, "seed": seed, "phase": phase,
-                                   "digest": intern(kind[:4] + digest if fam != "plan" or kind in ("plan_digest", "archive_bytes") else digest)})
+                                   "digest": intern(digest)})
                     raw.append((p, seed, kind, phase, digest, ev[3] if len(ev) > 3 else None))
             hs.append({"events": events})
             meta.append({"family": fam, "name": name, "raw": raw})
@@ -1628,11 +1630,13 @@ def model_agreement(ctx, results, designs, canon, alls):
 
 
 def run(ctx):
-    th = ctx.thorough
     designs, canon, alls = stage_target(ctx)
     stage_monitor(ctx)
+    stage_histories(ctx, designs, canon, alls)
 
-    # ---------------- histories ----------------------------------------------------------------------------------
+
+def stage_histories(ctx, designs, canon, alls):
+    th = ctx.thorough
     seeds = [0, 0] + (list(range(1, 16)) if th else [1, 2, 3])        # interpreters 0 and 1 share a hash seed
     if ctx.seed:
         seeds = seeds[:2] + [1000 * ctx.seed + s for s in seeds[2:]]
@@ -1680,7 +1684,11 @@ def run(ctx):
             continue
         ev = [dict(e) for e in src["events"]]
         idx = [i for i, e in enumerate(ev) if e["kind"] == kind]
-        ev[idx[-1] if kind in ("post_reset_state", "extract_listing") else idx[len(idx) // 2]]["digest"] = big
+        if kind in ("post_reset_state", "extract_listing"):        # a producer that is consistently wrong
+            for i in idx:
+                ev[i]["digest"] = big
+        else:                                                      # one observation differs
+            ev[idx[len(idx) // 2]]["digest"] = big
         bad.append({"events": ev})
         want.append(clause)
     if len(bad) < 3:
